@@ -20,7 +20,7 @@ import (
 func init() {
 	mon.Register(&mon.Prop{
 		ID: "C03", Level: "exploration",
-		Rule: "records in the image of genbank.Parse over generated files (see C01) and generated poly.Sequence structures (0..40 features with 0..8 qualifiers, with and without cached location text, 0..5 references with remarks, 0..4 extra keyword blocks, metadata up to 2000 characters, lengths 1..3000, thorough up to 10^5); every record is built 20 times (byte comparison), parsed back by poly and read by the harness's column-based reader; a sample goes through Write/Read on a temp file; the determinism workload has >= 10 features of 4..8 qualifiers and 3..5 keyword blocks per record; non-trivial = at least one feature with a qualifier, a reference or a wrapped block; distinct by hash of the first build output",
+		Rule: "records in the image of genbank.Parse over generated files (see C01) and generated poly.Sequence structures (0..40 features with 0..8 qualifiers, with and without cached location text, 0..5 references with remarks, 0..4 extra keyword blocks, metadata up to 2000 characters, lengths 1..3000, thorough up to 10^5; some structures named with an upper-case division code inside a lower-case name, some with a short qualifier value holding two adjacent quotation marks); every record is built 20 times (byte comparison), parsed back by poly and read by the harness's column-based reader; a sample goes through Write/Read on a temp file; the determinism workload has >= 10 features of 4..8 qualifiers and 3..5 keyword blocks per record; non-trivial = at least one feature with a qualifier, a reference or a wrapped block; distinct by hash of the first build output",
 		Assumptions: []string{
 			"independent reader: column-based GenBank reader written from the release notes (internal/gen/gbread.go); it must also recover every file the harness's own writer produces (checked in C01)",
 			"location equality is semantic (same normal form: bases, order, strand, partial markers)",
@@ -61,6 +61,8 @@ func fromStruct(l poly.Location) *oracle.Loc {
 }
 
 // seqFromRecord assembles a poly.Sequence from an abstract record, as a program using the library would.
+var c03CodeNames int
+
 func seqFromRecord(rec *gen.GBRecord, r *rand.Rand, cachedText bool) poly.Sequence {
 	var s poly.Sequence
 	s.Sequence = rec.Seq
@@ -74,6 +76,19 @@ func seqFromRecord(rec *gen.GBRecord, r *rand.Rand, cachedText bool) poly.Sequen
 		s.Meta.Locus.ModificationDate = ""
 	case 2:
 		s.Meta.Locus.GenbankDivision = ""
+	}
+	if r.Intn(40) == 0 {
+		// ... and the same with any code, on records with or without a division (known finding K3 where the code
+		// in the name is listed before the record's division or the record states none)
+		s.Meta.Locus.Name = strings.ToLower(gen.RandWordAlnum(r, 1+r.Intn(4))) + gen.AnyDivision(r) + fmt.Sprint(r.Intn(10))
+		c03CodeNames++
+	} else if later := gen.LaterDivision(r, s.Meta.Locus.GenbankDivision); later != "" && r.Intn(20) == 0 {
+		// a construct named after what it carries, with one upper-case word in the name that is also a division
+		// code listed after the record's own (tEST1 in SYN, pENV2 in BCT); the rest of the name stays lower case.
+		// Only on records that state their division: the LOCUS line of a record without one has no place that
+		// tells a code in the name from a code in the division column (section 4 of DESIGN.md).
+		s.Meta.Locus.Name = strings.ToLower(gen.RandWordAlnum(r, 1+r.Intn(4))) + later + fmt.Sprint(r.Intn(10))
+		c03CodeNames++
 	}
 	s.Meta.Definition, s.Meta.Accession, s.Meta.Version, s.Meta.Keywords = rec.Definition, rec.Accession, rec.Version, rec.Keywords
 	s.Meta.Source, s.Meta.Organism = rec.Source, rec.Organism()
@@ -292,7 +307,21 @@ func c03Record(w *mon.W, id string, x poly.Sequence, origin string, tmp string, 
 		w.Violation(id, fmt.Sprintf("parsing the text genbank.Build wrote (%s): %s", origin, p), rep)
 	} else {
 		w.Add("records_round_tripped", 1)
-		if d := compareRoundTrip(x0, y); len(d) > 0 {
+		d := compareRoundTrip(x0, y)
+		// K3: the reader takes as division the first code of the release-notes list that occurs anywhere on the LOCUS
+		// line, so a code inside the locus name that is listed before the record's own division (or any code, if the
+		// record states none) is reported instead. Exactly that prediction is a known finding; anything else is not.
+		if pred := gen.FirstDivisionIn(x0.Meta.Locus.Name, x0.Meta.Locus.GenbankDivision); pred != x0.Meta.Locus.GenbankDivision {
+			want := fmt.Sprintf("locus division: %q became %q", x0.Meta.Locus.GenbankDivision, pred)
+			for i := range d {
+				if d[i] == want {
+					d = append(d[:i:i], d[i+1:]...)
+					w.Known("division-read-from-name", id, fmt.Sprintf("locus %q with division %q reads back with division %q", x0.Meta.Locus.Name, x0.Meta.Locus.GenbankDivision, pred))
+					break
+				}
+			}
+		}
+		if len(d) > 0 {
 			w.Violation(id, fmt.Sprintf("Parse(Build(x)) != x (%s): %s", origin, joinDiffs(d, 4)), rep)
 		}
 	}
@@ -426,6 +455,19 @@ func runC03(w *mon.W) {
 				}
 			}
 		}
+		if mode != 0 && len(rec.Features) > 0 && r.Intn(10) == 0 {
+			// a short value that mentions an empty string literal: two quotation marks side by side inside the value
+			// (short enough never to be wrapped, never at an end of the value)
+			f := &rec.Features[r.Intn(len(rec.Features))]
+			has := false
+			for _, q := range f.Quals {
+				has = has || q.Key == "old_locus_tag"
+			}
+			if !has {
+				f.Quals = append(f.Quals, gen.GBQual{Key: "old_locus_tag", Value: []string{"default is \"\" (empty)", "x\"\"y", "a \"\" b \"\" c"}[r.Intn(3)], Kind: gen.QualText})
+				w.Add("structured_records_with_adjacent_quotation_marks_in_a_value", 1)
+			}
+		}
 		var x poly.Sequence
 		origin := ""
 		w.Begin(id, fmt.Sprintf("mode %d record %s", mode, rec.Name))
@@ -439,7 +481,11 @@ func runC03(w *mon.W) {
 				w.Add("files_with_a_BASE_COUNT_line", 1)
 			}
 			file := gen.WriteGB(rec, gen.RandLayout(r))
-			if p := mon.Try(func() { buf := []byte(file); x = genbank.Parse(buf); unchangedThenScribble(w, id, "genbank.Parse", buf, file) }); p != "" {
+			if p := mon.Try(func() {
+				buf := []byte(file)
+				x = genbank.Parse(buf)
+				unchangedThenScribble(w, id, "genbank.Parse", buf, file)
+			}); p != "" {
 				// C01's subject
 				w.Add("parse_panics_skipped", 1)
 				w.End()
@@ -447,10 +493,14 @@ func runC03(w *mon.W) {
 			}
 		case 1:
 			origin = "assembled structure without cached location text"
+			cn0 := c03CodeNames
 			x = seqFromRecord(rec, r, false)
+			w.Add("assembled_records_named_with_a_later_division_code", int64(c03CodeNames-cn0))
 		default:
 			origin = "assembled structure with cached location text (determinism workload)"
+			cn0 := c03CodeNames
 			x = seqFromRecord(rec, r, true)
+			w.Add("assembled_records_named_with_a_later_division_code", int64(c03CodeNames-cn0))
 		}
 		c03Record(w, id, x, origin, tmp, k%10 == 0)
 		w.End()
